@@ -160,6 +160,117 @@ static void part_init(void)
     }
 }
 
+/* (c2) system entries are initialised once, too: the error history 1003h:0 is set up by its type's Init.  A second run would not be
+ * counted by a type of ours, but it is observable: an emergency registered by the Init of an entry in front of 1003h (manufacturer
+ * status register 1002h) is listed after the first run and orphaned by a second one (count in 1003h:0 without readable entries). */
+static CO_ERR emcyset_init(CO_OBJ *o, CO_NODE *n) { (*(uint32_t *)o->Data)++; COEmcySet(&n->Emcy, 0, NULL); return CO_ERR_NONE; }
+static const CO_OBJ_TYPE EmcySetType = { cnt_size, emcyset_init, cnt_rd, 0, 0 };
+static void part_init_system(void)
+{
+    for (int depth = 1; depth <= 4; depth++) {
+        static CO_TMR_MEM tm[4]; static uint8_t sdobuf[CO_SDO_BUF_BYTE * CO_SSDO_N];
+        static CO_EMCY_TBL tbl[CO_EMCY_N];
+        static uint8_t reg, hnum; static uint32_t hist[4], cnt, emcyid;
+        CO_OBJ root[12]; int n = 0;
+        memset(tbl, 0, sizeof tbl); tbl[0].Reg = 1; tbl[0].Code = 0x2310;
+        reg = 0; hnum = 0; cnt = 0; emcyid = 0x80; memset(hist, 0, sizeof hist);
+        root[n].Key = CO_KEY(0x1001, 0, CO_OBJ_____R_); root[n].Type = CO_TUNSIGNED8; root[n].Data = (CO_DATA)&reg; n++;
+        root[n].Key = CO_KEY(0x1002, 0, CO_OBJ_____R_); root[n].Type = &EmcySetType; root[n].Data = (CO_DATA)&cnt; n++;
+        root[n].Key = CO_KEY(0x1003, 0, CO_OBJ_____RW); root[n].Type = CO_TEMCY_HIST; root[n].Data = (CO_DATA)&hnum; n++;
+        for (int k = 0; k < depth; k++) { root[n].Key = CO_KEY(0x1003, 1 + k, CO_OBJ_____R_); root[n].Type = CO_TEMCY_HIST; root[n].Data = (CO_DATA)&hist[k]; n++; }
+        root[n].Key = CO_KEY(0x1014, 0, CO_OBJ__N__R_); root[n].Type = CO_TEMCY_ID; root[n].Data = (CO_DATA)&emcyid; n++;
+        root[n].Key = 0; root[n].Type = 0; root[n].Data = 0;
+        CO_NODE_SPEC spec = { 1, 250000, root, (uint16_t)(n + 1), tbl, tm, 4, 1000, &Drv, sdobuf };
+        memset(&Node, 0, sizeof Node);
+        CONodeInit(&Node, &spec);
+        NInitDict++;
+        if (cnt != 1) VIOL("init-once/system-entry", "init of 1002h ran %u times", cnt);
+        uint8_t num = 0xFF; uint32_t v;
+        CO_OBJ *o = CODictFind(&Node.Dict, CO_DEV(0x1003, 0));
+        if (o == NULL || COObjRdValue(o, &Node, &num, 1) != CO_ERR_NONE) { VIOL("init-once/history-unreadable", "1003h:0 not readable after CONodeInit"); continue; }
+        if (num > depth) { VIOL("init-once/history", "1003h:0 = %u with %d entries", num, depth); continue; }
+        for (int k = 1; k <= num; k++) {
+            o = CODictFind(&Node.Dict, CO_DEV(0x1003, k));
+            if (o == NULL || COObjRdValue(o, &Node, &v, 4) != CO_ERR_NONE || v == 0) {
+                VIOL("init-once/history", "depth %d: after CONodeInit 1003h:0 announces %u errors, 1003h:%d is not readable (the history was set up, used by the Init of 1002h and set up again)", depth, num, k);
+                break;
+            }
+        }
+        /* whatever was listed: the next emergency has to appear as newest entry with a matching count */
+        COEmcyClr(&Node.Emcy, 0); COEmcySet(&Node.Emcy, 0, NULL);
+        o = CODictFind(&Node.Dict, CO_DEV(0x1003, 0)); uint8_t num2 = 0xFF; (void)COObjRdValue(o, &Node, &num2, 1);
+        o = CODictFind(&Node.Dict, CO_DEV(0x1003, 1)); v = 0;
+        if (COObjRdValue(o, &Node, &v, 4) != CO_ERR_NONE || (v & 0xFFFF) != 0x2310 || num2 != (num < depth ? num + 1 : depth))
+            VIOL("init-once/history", "depth %d: emergency after CONodeInit: 1003h:0 = %u (was %u), 1003h:1 = %08x", depth, num2, num, v);
+    }
+}
+
+/* (c3) every system type's Init runs once per entry of that type during CONodeInit.  The Init functions are static in the stack, but
+ * reachable through the public type structures; the build of this engine uses -finstrument-functions, so the entry hook below sees
+ * every call of every function and counts the ones watched (no change to the stack's sources). */
+#define NWATCH 16
+static void *WatchFn[NWATCH]; static const char *WatchName[NWATCH]; static unsigned WatchCnt[NWATCH], WatchWant[NWATCH]; static int NWatch;
+static unsigned long HookCalls, NInitSys;
+__attribute__((no_instrument_function)) void __cyg_profile_func_enter(void *fn, void *site)
+{
+    (void)site; HookCalls++;
+    for (int i = 0; i < NWatch; i++) if (WatchFn[i] == fn) WatchCnt[i]++;
+}
+__attribute__((no_instrument_function)) void __cyg_profile_func_exit(void *fn, void *site) { (void)fn; (void)site; }
+static void watch(const CO_OBJ_TYPE *t, const char *name, unsigned want)
+{
+    for (int i = 0; i < NWatch; i++) if (WatchFn[i] == (void *)t->Init) { WatchWant[i] += want; return; }
+    WatchFn[NWatch] = (void *)t->Init; WatchName[NWatch] = name; WatchCnt[NWatch] = 0; WatchWant[NWatch] = want; NWatch++;
+}
+static void part_init_types(void)
+{
+    for (int var = 0; var < 24; var++) {
+        static CO_TMR_MEM tm[16]; static uint8_t sdobuf[CO_SDO_BUF_BYTE * CO_SSDO_N];
+        static CO_EMCY_TBL tbl[CO_EMCY_N];
+        static uint8_t reg, hnum, n1016, n1200, n1400, n1600, n1800, n1a00, ttype, rtype, dombuf[8];
+        static uint16_t hbp, evt, inh; static uint32_t hist[8], emcyid, syncid, cycle, rx, tx, rid, tid, map0, map1, val;
+        static CO_HBCONS hbc[3]; static CO_OBJ_STR str; static CO_OBJ_DOM dom; static CO_OBJ root[64];
+        int n = 0, depth = var % 5 /* 0 = no history */, nhbc = var % 4, with_sync = var & 1, with_pdo = (var >> 1) & 1, with_1014 = var % 3 != 0;
+        memset(tbl, 0, sizeof tbl); tbl[0].Reg = 1; tbl[0].Code = 0x2310;
+        reg = hnum = 0; memset(hist, 0, sizeof hist); emcyid = 0x80; syncid = 0x80; cycle = 0; hbp = (uint16_t)(var * 10); evt = inh = 0;
+        rx = 0x600; tx = 0x580; rid = 0x200; tid = 0x180; map0 = map1 = 0x20000020; n1200 = 2; n1400 = 2; n1800 = 5; n1600 = n1a00 = 1; ttype = rtype = 254;
+        n1016 = (uint8_t)nhbc; str.Offset = 0; str.Start = (uint8_t *)"abc"; dom.Offset = 0; dom.Size = 8; dom.Start = dombuf; NWatch = 0;
+#define ENT(idx, sub, fl, ty, dat) do { root[n].Key = CO_KEY(idx, sub, fl); root[n].Type = (ty); root[n].Data = (CO_DATA)(dat); n++; } while (0)
+        ENT(0x1001, 0, CO_OBJ_____R_, CO_TUNSIGNED8, &reg);
+        if (depth) { ENT(0x1003, 0, CO_OBJ_____RW, CO_TEMCY_HIST, &hnum); for (int k = 0; k < depth; k++) ENT(0x1003, 1 + k, CO_OBJ_____R_, CO_TEMCY_HIST, &hist[k]); watch(CO_TEMCY_HIST, "CO_TEMCY_HIST", 1u + (unsigned)depth); }
+        if (with_sync) { ENT(0x1005, 0, CO_OBJ_____RW, CO_TSYNC_ID, &syncid); ENT(0x1006, 0, CO_OBJ_____RW, CO_TSYNC_CYCLE, &cycle); watch(CO_TSYNC_ID, "CO_TSYNC_ID", 1); watch(CO_TSYNC_CYCLE, "CO_TSYNC_CYCLE", 1); }
+        ENT(0x1008, 0, CO_OBJ_____R_, CO_TSTRING, &str); watch(CO_TSTRING, "CO_TSTRING", 1);
+        if (with_1014 || 1) { ENT(0x1014, 0, CO_OBJ__N__RW, CO_TEMCY_ID, &emcyid); watch(CO_TEMCY_ID, "CO_TEMCY_ID", 1); }
+        if (nhbc) { ENT(0x1016, 0, CO_OBJ_____R_, CO_TUNSIGNED8, &n1016); for (int k = 0; k < nhbc; k++) { hbc[k].NodeId = (uint8_t)(10 + k); hbc[k].Time = (uint16_t)(100 * k); ENT(0x1016, 1 + k, CO_OBJ_____RW, CO_THB_CONS, &hbc[k]); } watch(CO_THB_CONS, "CO_THB_CONS", (unsigned)nhbc); }
+        ENT(0x1017, 0, CO_OBJ_____RW, CO_THB_PROD, &hbp); watch(CO_THB_PROD, "CO_THB_PROD", 1);
+        { static uint8_t n1018 = 4; static uint32_t ident[4] = { 1, 2, 3, 4 }; ENT(0x1018, 0, CO_OBJ_____R_, CO_TUNSIGNED8, &n1018); for (int k = 0; k < 4; k++) ENT(0x1018, 1 + k, CO_OBJ_____R_, CO_TUNSIGNED32, &ident[k]); }
+        ENT(0x1200, 0, CO_OBJ_____R_, CO_TUNSIGNED8, &n1200); ENT(0x1200, 1, CO_OBJ__N__R_, CO_TSDO_ID, &rx); ENT(0x1200, 2, CO_OBJ__N__R_, CO_TSDO_ID, &tx); watch(CO_TSDO_ID, "CO_TSDO_ID", 2);
+        if (with_pdo) {
+            ENT(0x1400, 0, CO_OBJ_____R_, CO_TUNSIGNED8, &n1400); ENT(0x1400, 1, CO_OBJ__N__RW, CO_TPDO_ID, &rid); ENT(0x1400, 2, CO_OBJ_____RW, CO_TPDO_TYPE, &rtype);
+            ENT(0x1600, 0, CO_OBJ_____RW, CO_TPDO_NUM, &n1600); ENT(0x1600, 1, CO_OBJ_____RW, CO_TPDO_MAP, &map0);
+            ENT(0x1800, 0, CO_OBJ_____R_, CO_TUNSIGNED8, &n1800); ENT(0x1800, 1, CO_OBJ__N__RW, CO_TPDO_ID, &tid); ENT(0x1800, 2, CO_OBJ_____RW, CO_TPDO_TYPE, &ttype);
+            ENT(0x1800, 3, CO_OBJ_____RW, CO_TUNSIGNED16, &inh); ENT(0x1800, 5, CO_OBJ_____RW, CO_TPDO_EVENT, &evt);
+            ENT(0x1A00, 0, CO_OBJ_____RW, CO_TPDO_NUM, &n1a00); ENT(0x1A00, 1, CO_OBJ_____RW, CO_TPDO_MAP, &map1);
+            watch(CO_TPDO_ID, "CO_TPDO_ID", 2); watch(CO_TPDO_TYPE, "CO_TPDO_TYPE", 2); watch(CO_TPDO_NUM, "CO_TPDO_NUM", 2); watch(CO_TPDO_MAP, "CO_TPDO_MAP", 2); watch(CO_TPDO_EVENT, "CO_TPDO_EVENT", 1);
+        }
+        ENT(0x2000, 0, CO_OBJ____PRW, CO_TUNSIGNED32, &val);
+        ENT(0x2001, 0, CO_OBJ_____RW, CO_TDOMAIN, &dom); watch(CO_TDOMAIN, "CO_TDOMAIN", 1);
+        root[n].Key = 0; root[n].Type = 0; root[n].Data = 0;
+        CO_NODE_SPEC spec = { 1, 250000, root, (uint16_t)(n + 1), tbl, tm, 16, 1000, &Drv, sdobuf };
+        memset(&Node, 0, sizeof Node);
+        unsigned long h0 = HookCalls;
+        for (int i = 0; i < NWatch; i++) WatchCnt[i] = 0;
+        CONodeInit(&Node, &spec);
+        int nw = NWatch; NWatch = 0;            /* stop counting */
+        NInitSys++;
+        if (HookCalls == h0) { printf("stat init_hook_silent 1\n"); return; }   /* not an instrumented build: inconclusive, see m_dict.finish */
+        if (CONodeGetErr(&Node) != CO_ERR_NONE) VIOL("init-once/harness-dictionary", "variant %d: node error %d after CONodeInit", var, (int)CONodeGetErr(&Node));
+        for (int i = 0; i < nw; i++)
+            if (WatchFn[i] != NULL && WatchCnt[i] != WatchWant[i])
+                VIOL("init-once/system-type", "dictionary variant %d (%d entries, node error %d): Init of %s ran %u times for %u entries of that type", var, n, (int)CONodeGetErr(&Node), WatchName[i], WatchCnt[i], WatchWant[i]);
+    }
+}
+
 /* (d) typed access */
 static unsigned long NTyped;
 static void typed_one(int width, int direct, int nodeid_rel, uint8_t nid, uint32_t value)
@@ -368,11 +479,12 @@ int main(int argc, char **argv)
     if (parts & 1) { part_small();
         printf("stat small_scope_dictionaries %lu\nstat small_scope_lookups %lu\n", NDict, NLook); }
     if (parts & 2) part_random(ndicts);
-    if (parts & 4) part_init();
+    if (parts & 4) { part_init(); part_init_system(); part_init_types(); }
     if (parts & 8) part_typed(n32);
     if (parts & 16) part_buffer(full);
     if (parts & 32) part_chunked();
     if (parts & 64) part_typed_stream();
+    printf("stat init_system_dictionaries %lu\nstat init_hook_calls %lu\n", NInitSys, HookCalls);
     printf("stat dictionaries %lu\nstat lookups %lu\nstat lookups_hit %lu\nstat lookups_miss %lu\nstat init_dictionaries %lu\nstat typed_cases %lu\nstat buffer_cases %lu\nstat chunked_cases %lu\nstat violations %lu\n",
            NDict, NLook, NHit, NMiss, NInitDict, NTyped, NBuf, NChunk, NViol);
     printf("sample small-scope: all 256 subsets of an 8-key universe x 21 probe keys x 4 flag bytes, array of exactly n+1 entries\n");
